@@ -335,6 +335,10 @@ impl Shell {
 }
 
 pub unsafe fn give_terminal_to(gid: i32) -> bool {
+    #[cfg(cicada_verif)]
+    if crate::verif_hooks::fake_kernel_installed() {
+        return crate::verif_hooks::fake_give_terminal_to(gid);
+    }
     let mut mask: libc::sigset_t = mem::zeroed();
     let mut old_mask: libc::sigset_t = mem::zeroed();
 
